@@ -211,15 +211,26 @@ def gaussian_noise_numpy(U):
 
 def noise_variance_default(U):
     """default make_noise_variance: per tensor component (data fields) / per field (collections)"""
+    for order in ("scalar,vector", "vector,scalar"):
+        _noise_variance_collection(U, order)
+
+
+def _noise_variance_collection(U, order):
+    ranks = [0, 1] if order == "scalar,vector" else [1, 0]
+    sizes = [3 ** r for r in ranks]
+    slices = [slice(0, sizes[0]), slice(sizes[0], 4)]
+
     def body(it):
         pde_cls = it.module_attr(it.load_module("pde.pdes.base"), "SDEBase")
         v = [z3.Real("v0"), z3.Real("v1")]
-        # collection of a scalar field and a 3-component vector field: slices [0:1], [1:4]
+        # collection of a scalar field and a 3-component vector field in either order: 4 rows
         n = z3.Int("n")
         it.ctx.assume(n >= 1)
-        grid = Instance(None, {"num_axes": 1}, name="grid")
-        state = Instance(None, {"grid": grid, "data": sym_array("d", (4, n)), "data_shape": (4,), "_slices": [slice(0, 1), slice(1, 4)],
-                                "__len__": lambda: 2, "__isinstance__": ("FieldCollection", "FieldBase")}, name="collection")
+        grid = Instance(None, {"num_axes": 1, "dim": 3}, name="grid")
+        members = [Instance(None, {"rank": r, "grid": grid}, name=f"member_rank{r}") for r in ranks]
+        state = Instance(None, {"grid": grid, "data": sym_array("d", (4, n)), "data_shape": (4,), "_slices": list(slices), "fields": members,
+                                "__len__": lambda: 2, "__iter__": lambda: list(members), "__getitem__": lambda k: members[k],
+                                "__isinstance__": ("FieldCollection", "FieldBase")}, name="collection")
         eq = Instance(pde_cls, {"noise": [v[0], v[1]], "_logger": Opaque("logger")})
         backend = Instance(None, {"numpy_to_native": lambda a: a}, name="backend")
         fn = it.call(it.getattr(eq, "make_noise_variance"), [state], {"backend": backend, "ret_diff": False})
@@ -229,17 +240,54 @@ def noise_variance_default(U):
     for p, res in enumerate(explore_paths(U, body)):
         P = prem_of(res.ctx)
         if res.outcome != "return":
-            U.prove(f"make_noise_variance[collection].path{p}.returns_normally", P, z3.BoolVal(False), info={"exc": str(res.exc)})
+            U.prove(f"make_noise_variance[collection {order}].path{p}.returns_normally", P, z3.BoolVal(False), info={"exc": str(res.exc)})
             continue
         arr, v = res.value
         ok_shape = isinstance(arr, NDArr) and tuple(arr.shape) == (4, 1)
-        U.prove(f"make_noise_variance[collection].path{p}.shape_broadcasts_over_grid", P, z3.BoolVal(ok_shape))
+        U.prove(f"make_noise_variance[collection {order}].path{p}.shape_broadcasts_over_grid", P, z3.BoolVal(ok_shape))
         if ok_shape:
             for k in range(4):
-                U.prove(f"make_noise_variance[collection].path{p}.row{k}_gets_variance_of_its_field", P, to_z3(arr.read((k, 0))) == (v[0] if k < 1 else v[1]))
+                U.prove(f"make_noise_variance[collection {order}].path{p}.row{k}_gets_variance_of_its_field", P, to_z3(arr.read((k, 0))) == (v[0] if k < sizes[0] else v[1]))
 
 
-UNITS = [
+RNG_CLASSES = {"DiffusionPDE": "pde.pdes.diffusion", "KPZInterfacePDE": "pde.pdes.kpz_interface", "KuramotoSivashinskyPDE": "pde.pdes.kuramoto_sivashinsky"}
+
+
+def rng_forwarded_unit(clsname):
+    """the generator (and the noise strength) given to a stochastic equation class reach SDEBase / PDEBase through
+    the real __init__ chain: eq.rng is np.random.default_rng(<the given generator>), which NumPy defines to be that
+    generator itself; make_gaussian_noise (contract above) draws from eq.rng"""
+    def unit(U):
+        def body(it):
+            cls = it.load_module(RNG_CLASSES[clsname]).get(clsname)
+            gen = Instance(None, {}, name="the generator given to the equation")
+            seen = []
+
+            def default_rng(x=None):
+                seen.append(x)
+                return x if isinstance(x, Instance) else Instance(None, {"fresh": True}, name="fresh unseeded generator")
+
+            it.stub_modules["numpy"].attrs["random"] = Instance(None, {"default_rng": default_rng}, name="np.random")
+            noise = z3.Real("noise")
+            eq = it.instantiate(cls, [], {"rng": gen, "noise": noise})
+            return eq, gen, noise
+
+        for p, res in enumerate(explore_paths(U, body)):
+            P = prem_of(res.ctx)
+            if res.outcome != "return":
+                U.prove(f"{clsname}.path{p}.returns_normally", P, z3.BoolVal(False), info={"exc": str(res.exc)})
+                continue
+            eq, gen, noise = res.value
+            U.prove(f"{clsname}.path{p}.equation_draws_from_the_generator_it_was_given", P, z3.BoolVal(eq.attrs.get("rng") is gen),
+                    info={"witness": "a seeded run is reproducible bit for bit only if the supplied generator is the one used"})
+            got = eq.attrs.get("noise")
+            U.prove(f"{clsname}.path{p}.noise_strength_is_kept", P, to_z3(got.read(())) == noise if isinstance(got, NDArr) and got.ndim == 0 else (to_z3(got) == noise if got is not None and not isinstance(got, NDArr) else z3.BoolVal(False)))
+        U.assume_note("np.random.default_rng(generator) returns that generator (NumPy documentation)")
+
+    return unit
+
+
+UNITS = [(f"rng_reaches_the_base_class[{c}]", rng_forwarded_unit(c)) for c in RNG_CLASSES] + [
     ("euler_maruyama.single_step", explicit_unit("pde.solvers.euler", "EulerSolver", "_make_single_step_fixed_dt_stochastic", S.euler_maruyama, "euler_maruyama")),
     ("milstein.single_step", explicit_unit("pde.solvers.milstein", "MilsteinSolver", "_make_single_step_fixed_dt_stochastic", S.milstein, "milstein")),
     ("implicit.stochastic_step", implicit_stochastic),
